@@ -1,6 +1,7 @@
 """Shared machinery for C41 (spec/Auth.tla): TLC runs and replay on the real auth + ontid contracts."""
 import os
 import vf
+import _tlccache
 
 IDS, ROLES, FNS = ["A", "B", "C"], ["r1", "r2"], ["f1", "f2"]
 OWN = lambda x: {"k": 1, "signers": [[x, 1]]}
@@ -55,7 +56,7 @@ def run_paths(ctx, binary, paths, tag, timeout=1500):
     for p in paths:
         setup = [] if p["init"]["admin"] == "none" else SETUP_S1
         if p["init"].get("deleg") and p["init"]["deleg"]["B"]["r1"]["root"] != "none":
-            setup = SETUP_S1 + [dict(name="Delegate", id="A", to="B", role="r1", period=2, level=1, **OWN("A"))]
+            setup = SETUP_S1 + [dict(name="Delegate", id="A", to="B", role="r1", period=1, level=1, **OWN("A"))]
         inp["paths"].append({"setup": setup, "now": p["init"]["now"], "steps": [s["act"] for s in p["steps"]]})
     fin = os.path.join(ctx.scratch, "replay-%s.in.json" % tag)
     fout = os.path.join(ctx.scratch, "replay-%s.out.ndjson" % tag)
@@ -84,7 +85,7 @@ def probe(ctx, binary):
 
 
 def tlc_design(ctx, cfg):
-    r = ctx.tlc("Auth_MC", cfg=cfg, timeout=1500)
+    r = _tlccache.run(ctx, "Auth_MC", "Auth", cfg, tags_needed=False)
     if r.status != "ok":
         ctx.infra("TLC did not verify the auth design (%s): %s %s %s" % (cfg, r.status, r.violated, r.errors[:2]))
         return None
@@ -94,7 +95,7 @@ def tlc_design(ctx, cfg):
 
 def tlc_asis(ctx, name, dev, inits, max_ops, modes="ModesAll", simulate=None, depth=None):
     txt = cfg_text(inits, max_ops, modes, dev["AssignSkipsDelegated"], True, props=not simulate)
-    r = ctx.tlc("Auth_MC", cfg=name, files={name: txt}, workers=1, timeout=1500, simulate=simulate, depth=depth)
+    r = _tlccache.run(ctx, "Auth_MC", "Auth", name, txt, simulate=simulate, depth=depth, workers=1)
     if r.status != "ok" and not (simulate and r.status == "error" and not r.errors):
         ctx.infra("TLC failed on %s: %s %s %s" % (name, r.status, r.violated, r.errors[:2]))
         return None
@@ -105,7 +106,10 @@ def tlc_asis(ctx, name, dev, inits, max_ops, modes="ModesAll", simulate=None, de
 
 def check(ctx, paths, obs, dev):
     n = 0
+    dead = set()
     for o in obs:
+        if o["path"] in dead:
+            continue
         p = paths[o["path"]]
         if o["step"] == 0:
             act, to = {"name": "Init", "res": "init"}, p["init"]
@@ -142,6 +146,7 @@ def check(ctx, paths, obs, dev):
                 accepted = o["res"] == "true" and act.get("res") != "true"
                 ctx.violation("State:%s:%s%s" % (name, fld, ":refusal-expected" if accepted else ""),
                               {"real": o[fld], "model": m[fld], "real_res": o["res"], "model_res": act.get("res")}, rp)
+                dead.add(o["path"])   # the rest of this path is no longer comparable
                 break
         if bad:
             continue
